@@ -12,7 +12,8 @@ Notation up_to_date_c := (up_to_date project config sched fname tree tree files)
    position k: a non-forced run that gets as far as writing and whose k-th write fails
    - keeps sources and configuration;
    - if the failing write is one of the files of the plan: reports Failure, leaves the record exactly as it
-     was and has written exactly the first k files;
+     was, has written exactly the first k files and leaves no file under the name whose write failed (no truncated
+     file survives: repair C17-1);
    - if only the record cannot be written: reports Success with every file of the plan in place and no record;
    - in both cases the record does not vouch for the current inputs afterwards (cache_hit = false);
    - the next non-forced run (under any order with the same fingerprint) regenerates: Success, every file
@@ -24,7 +25,8 @@ Theorem C17_fault : forall (w : sched) (st : cstate) (k : nat) r st1,
   let plan := files w (s_src st) (s_cfg st) in
   s_src st1 = s_src st /\ s_cfg st1 = s_cfg st /\
   (k < length plan -> r = Failure /\ s_cache st1 = s_cache st /\
-     (forall f, s_out st1 f = write_all fname tree fname_eqb (firstn k plan) (s_out st) f)) /\
+     (forall f, s_out st1 f = unwrite fname tree fname_eqb (nth_error plan k)
+                                (write_all fname tree fname_eqb (firstn k plan) (s_out st)) f)) /\
   (length plan <= k -> r = Success /\ s_cache st1 = None /\ up_to_date_c w st1) /\
   cache_hit_c true w st1 = false /\
   (forall w2 r2 st2, fp w2 (s_src st) (s_cfg st) = fp w (s_src st) (s_cfg st) ->
@@ -50,6 +52,17 @@ Theorem C17_recovery_outcomes : forall (w : sched) (t : cstate) r2 st2, has_comm
 Proof. exact (recovery_outcomes project config sched fname tree tree fname_eqb tree_eqb files fp has_commands g_force true
                 fname_eqb_spec files_nodup). Qed.
 
+(* former witness of C17-1 (a failed write left a truncated file that the presence test of the next run accepted):
+   matching record, types.ts lost, the regeneration fails at types.ts - nothing is left under that name, and the
+   next run regenerates everything *)
+Theorem C17_repaired_truncating_failure :
+  let st1 := snd (run_c true w1 false None (init_state p0 c0)) in
+  let st2 := step_c true st1 (Delete _ _ _ _ Types) in
+  let r3 := run_c true w1 false (Some 0) st2 in
+  let r4 := run_c true w1 false None (snd r3) in
+  fst r3 = Failure /\ s_out (snd r3) Types = None /\ fst r4 = Success /\ all_current w1 (snd r4) = true.
+Proof. exact c17_repaired_truncation. Qed.
+
 Example C17_ex_premises :
   fst (run_c true w1 false (Some 1) (init_state p0 c0)) = Failure /\
   fst (run_c true w1 false (Some 4) (init_state p0 c0)) = Success /\
@@ -59,3 +72,4 @@ Proof. exact c17_ex. Qed.
 Print Assumptions C17_fault.
 Print Assumptions C17_record_last.
 Print Assumptions C17_recovery_outcomes.
+Print Assumptions C17_repaired_truncating_failure.
